@@ -76,7 +76,18 @@ func routingKey(r *simhook.Rand) string {
 	tag := string(r.Bytes(1 + r.Intn(3)))
 	tag = strings.NewReplacer("{", "y", "}", "z").Replace(tag)
 	b := string(body)
-	switch r.Intn(10) {
+	switch r.Intn(13) {
+	case 10:
+		return b + "}{" + tag + "}" // a closing brace ahead of the first opening one
+	case 11:
+		return "}}{" + tag + "}" + b
+	case 12:
+		// every placement there is: short strings over a four-letter alphabet
+		k := make([]byte, 1+r.Intn(8))
+		for i := range k {
+			k[i] = "ab{}"[r.Intn(4)]
+		}
+		return string(k)
 	case 0:
 		return b
 	case 1:
